@@ -98,6 +98,17 @@ def stepLine (T : Tabs) (o : Objs) (w : List String) : Objs × String :=
         (o.set' nid (.sk seed s'), observe T s' ++ " " ++ boolStr (img' == img) ++ " " ++ toString img.length)
       | none => (o, "throw")
     | _, _ => (o, "bad-op")
+  | ["decode", hex, seed] =>
+    -- oracle support: decode an image (of the implementation) with the model's decoder and list its coupons
+    match parseHexBytes hex, seed.toNat? with
+    | some b, some seed =>
+      match deserializeCore T.wire T.comp (seedHash (UInt64.ofNat seed)).toNat (b.toList.map (·.toNat)) (fun b => Float.ofBits (UInt64.ofNat b)) with
+      | some (s, hb) =>
+        let m := buildBitMatrix s
+        let cells := (List.range (64 * 2^s.lgK)).filter (fun rc => (m.getD (rc / 64) 0).testBit (rc % 64))
+        (o, s!"D {s.lgK} {s.numCoupons} {s.offset} {s.fic} {boolStr s.merged} {hexN 16 hb.kxp} {hexN 16 hb.hip} {joinSp (cells.map toString)}")
+      | none => (o, "D undecodable")
+    | _, _ => (o, "bad-op")
   | ["copy", id, nid] =>
     match id.toNat? >>= o.get', nid.toNat? with
     | some (.sk seed s), some nid => (o.set' nid (.sk seed s), observe T s)
